@@ -61,7 +61,11 @@ func symConv(t_dst, t_src types.Type, x value) (value, bool) {
 			return resize(x, kd), true
 		}
 		if kd == types.String {
-			panic(unsupported("string(symbolic rune)"))
+			// string(r) for an ASCII rune is the one-byte string; other runes need UTF-8 encoding
+			if !X.decide("(bvult " + resize(x, types.Uint64).t + " " + bvc(0x80, 64) + ")") {
+				panic(unsupported("string(symbolic non-ASCII rune)"))
+			}
+			return sstring{[]value{resize(x, types.Uint8)}}, true
 		}
 		panic(unsupported(fmt.Sprintf("conv symInt to %v", t_dst)))
 	case sstring:
